@@ -8,15 +8,17 @@ use std::collections::BTreeSet;
 
 pub struct Roots {
     pub corpus: Vec<String>,
-    pub curated: Vec<String>,
+    pub curated: Vec<String>,   // hand-made roots followed by the TLC-synthesised ones
+    pub hand: usize,            // how many of `curated` are hand-made
 }
 
 impl Roots {
     pub fn load() -> Self {
         let root = verif_root();
         let mut curated = read_lines(&format!("{}/roots/curated.sfen", root));
+        let hand = curated.len();
         curated.extend(read_lines(&format!("{}/roots/synth.sfen", root)));
-        Roots { corpus: read_lines(&format!("{}/roots/valid.sfens", root)), curated }
+        Roots { corpus: read_lines(&format!("{}/roots/valid.sfens", root)), curated, hand }
     }
 }
 
@@ -1066,9 +1068,13 @@ pub fn run(args: &Args) {
         let deep = args.num("deep", 0);
         let n = roots.curated.len() as u64;
         if n > 0 {
-            let start = d.rng.below(n);
+            // every hand-made root, then a window (rotating with the seed) of the synthesised ones
+            let hand = (roots.hand as u64).min(n);
+            let ns = n - hand;
+            let start = if ns > 0 { d.rng.below(ns) } else { 0 };
             for i in 0..sub.min(n) {
-                let t = roots.curated[((start + i) % n) as usize].clone();
+                let idx = if i < hand { i } else { hand + (start + (i - hand)) % ns.max(1) };
+                let t = roots.curated[idx as usize].clone();
                 if guard(|| d.subtree(&t, i < deep)).is_none() {
                     d.out.emit("aborted", "\"where\":\"subtree\"");
                 }
